@@ -59,3 +59,18 @@ Theorem C08_no_lost_update :
   forall n y s, Reachable n y s -> counter s = ndone s.
 Proof. exact no_lost_update_gen. Qed.
 Print Assumptions C08_no_lost_update.
+
+(** No deadlock in the lock itself: from every reachable state, if the word is 0 any task inside Acquire
+    completes it alone within 31 steps; if it is 1 the owner is in its critical section (Release is
+    enabled) or completes Acquire alone within 4 steps. (Starvation-freedom is not claimed.) *)
+Theorem C08_lock_progress :
+  forall n y s, Reachable n y s ->
+  (lock s = 0 -> forall tid pc r, nth_error (threads s) tid = Some (InAcq pc r) ->
+     exists s', solo_acquire gen_cfg y 31 tid s = (s', true) /\ nth_error (threads s') tid = Some (Holding None)) /\
+  (lock s = 1 -> exists u t, nth_error (threads s) u = Some t /\ got t = true /\
+     match t with
+     | InAcq pc r => exists s', solo_acquire gen_cfg y 4 u s = (s', true) /\ nth_error (threads s') u = Some (Holding None)
+     | _ => is_holding t = true
+     end).
+Proof. exact lock_progress_gen. Qed.
+Print Assumptions C08_lock_progress.
